@@ -521,7 +521,7 @@ func init() {
 						r.Transitions += int64(len(seq))
 					}
 				}
-				if len(seq) == 4 {
+				if len(seq) == 4 && !c.Thorough() || len(seq) == 6 {
 					return
 				}
 				for _, e := range alphabet {
@@ -760,7 +760,7 @@ func init() {
 						r.States++
 					}
 				}
-				if len(seq) == 4 {
+				if len(seq) == 4 && !c.Thorough() || len(seq) == 5 {
 					return
 				}
 				for i := range statuses {
